@@ -19,7 +19,7 @@ package shimagent
 //@ immutable certificate.Blob
 //@ onalloc certificate(c): blobid(asKey(c)) == cblob(c)
 //@ ghost func certsNonNil(s *Server) bool = forall(h#bytes, h in dom(s.certs), s.certs[h] != nil && h == sha(blobid(asKey(s.certs[h]))) &&
-//@   s.certs[h].Certificate != nil && s.certs[h].Certificate.Key != nil)
+//@   s.certs[h].Certificate != nil && s.certs[h].Certificate.Key != nil && blobid(asKey(s.certs[h])) == keyutil.certid(s.certs[h].Certificate))
 //@ ghost func cacheOff(s *Server) bool = !s.noUpstreamSSHCACert ==> mapdom(s.upstreamSSHCACertCache) == nokeys(s.upstreamSSHCACertCache)
 //@ ghost func inv2(s *Server) bool = certsNonNil(s) && cacheOff(s)
 //@ ghost func condsOK(s *Server) bool = forall(i, 0 <= i && i < 40, s.conds[i] != nil && s.conds[i].L != nil && mstate(pl(s.conds[i].L)) == 0)
@@ -122,6 +122,7 @@ package shimagent
 //@ # closures are executed in place (flag inline), with the loop invariants below; outer(e) names e in the inlining caller's frame.
 //@ ghost func keysWF(ks []*agent.Key) bool = forall(j, 0 <= j && j < len(ks), ks[j] != nil && akBlob(ks[j]) == blobid(asKey(ks[j])), ks[j])
 //@ ghost func srvOK(s *Server) bool = s != nil && inv(s) && wheld(s) && cacheOff(s)
+//@ ghost func validAt(c *ssh.Certificate, t int) bool = certutil.inWindow(c.ValidAfter, c.ValidBefore, t)
 //@ func (*Server).filter(s)
 //@   flag logged
 //@   requires s != nil && inv(s) && wheld(s) && inv2(s)
@@ -137,6 +138,9 @@ package shimagent
 //@   ensures [the-list-handed-back-is-what-is-left-of-the-listing] err == nil ==> (ret(Agent.List, l0, 1) == nil &&
 //@     (inAgentKeys == nil || (arr(inAgentKeys) == arr(ret(Agent.List, l0, 0)) && off(inAgentKeys) == off(ret(Agent.List, l0, 0)))) && len(inAgentKeys) <= len(ret(Agent.List, l0, 0)))
 //@   ensures [tables-only-shrink] forall(h#bytes, h in dom(s.certs), old(h in dom(s.certs)) && s.certs[h] == old(s.certs[h]))
+//@   ensures [one-clock-sample-per-purge] err == nil ==> calls(time.Now) == old(calls(time.Now)) + 1
+//@   ensures [no-in-memory-certificate-outside-its-validity-window] err == nil ==> forall(h#bytes, h in dom(s.certs),
+//@     validAt(s.certs[h].Certificate, tUnix(ret(time.Now, old(calls(time.Now)), 0))))
 
 //@ func (remover).remove(r, key)
 //@   flag inline
@@ -171,6 +175,7 @@ package shimagent
 //@   flag inline
 //@   loop 1:
 //@     invariant srvOK(outer(s)) && certsInMemory == outer(s).certs
+//@     invariant calls(time.Now) == outer(old(calls(time.Now))) + 1 && now == ret(time.Now, outer(old(calls(time.Now))), 0) && !tIsZero(now)
 //@     invariant certsNonNil(outer(s))
 //@     invariant keysWF(keysInAgent)
 //@     invariant keysWF(outer(inAgentKeys))
@@ -178,6 +183,8 @@ package shimagent
 //@     invariant [tables-only-shrink] outer(forall(h#bytes, h in dom(s.certs), old(h in dom(s.certs)) && s.certs[h] == old(s.certs[h])))
 //@   loop 2:
 //@     invariant srvOK(outer(s)) && certsInMemory == outer(s).certs
+//@     invariant calls(time.Now) == outer(old(calls(time.Now))) + 1 && now == ret(time.Now, outer(old(calls(time.Now))), 0) && !tIsZero(now)
+//@     invariant [no-in-memory-certificate-outside-its-validity-window] errs == nil ==> forall(h#bytes, visited(h) && (h in dom(certsInMemory)), validAt(certsInMemory[h].Certificate, tUnix(now)))
 //@     invariant certsNonNil(outer(s))
 //@     invariant keysWF(keysInAgent)
 //@     invariant keysWF(outer(inAgentKeys))
